@@ -102,31 +102,33 @@ PLAN = {
     ],
 }
 
-SIM_RULE = ("cases = generated executions of the deterministic cluster simulator over real node code: committee size 4..7, weight classes (unit, small, one heavy, 1..100), generated leader order and per-height rotation, "
-            "Byzantine key set of weight <= f (biased to maximal), 0..2 outsiders with valid keys, optional crashed node, 1..3 heights; attack-shaped prelude (hold a message class to a node set, run, drop, timeouts), "
-            "then 5..150 swarm-weighted steps of deliver/run/drop/dup/timeout(s)/hold/release/sync/adversary injection (strategies pp, prepare, commit, vc, nv with presets, replay/re-wrap, support), optional healing epilogue. ")
+SIM_RULE = ("cases = generated executions of the deterministic cluster simulator over real node code: committee size 4..7 (thorough 10), weight classes (unit, small, one heavy, 1..100, stake-sized k*2^58, with zero-weight members), generated leader order and per-height rotation of order and weights, "
+            "optional membership change (1-2 identities absent from one height's committee, re-joining by sync), Byzantine key set of weight <= f (biased to maximal), 0..2 outsiders with valid keys, optional crashed node, optional transport that fails half way through a broadcast and reports it, "
+            "optional main-loop event (election / sync to the tip) landing while one node's worker is inside ValidateBlockProposal / RequestNewBlockProposal / the commit callback (worker half later, optionally after further deliveries; consumer may give up on cancel), 1..3 heights (thorough 4); "
+            "scripted templates (equivocating leader incl. same header with another block attached, per-member loss profiles, lifted signatures, Byzantine-led view changes with a 30-entry NEW_VIEW preset catalogue, assisted view changes in which Byzantine members vote and follow like correct ones, laggards), "
+            "then 5..150 swarm-weighted steps of deliver/run/drop/dup/timeout(s)/hold/release/sync/catchup/adversary injection (strategies pp, prepare, commit, vc, nv, replay/re-wrap/tamper/lift, support, follow, votes, liftall; timeouts and syncs may be split into main-loop half and later worker half), optional healing epilogue. ")
 
 RULES = {
     "C01": SIM_RULE + "Oracle: <=1 block hash per height over correct nodes' commit callbacks. Non-trivial = >=1 correct commit AND (a view > 0 was entered OR a Byzantine/outsider message was stored by a correct node). Distinct = hash of (config, abstracted action trace).",
-    "C02": "cases = (committee 4..10 with weights incl. 0 and > 2^53, block, mode strict/soft, previous proof nil/genuine/wrong, genuine COMMIT certificate whose signer set is cut exactly at Q, Q-1, F+1, F, all or random, then 0..3 mutations: duplicate signer, outsider padding/replacement with valid signatures, header type tag, signature garbage / over the PREPARE-tagged header / other view / other key, instance, height, hash other/empty, seed signature empty/garbage/other height/other seed, wrong previous proof, nil block, byte-level surgery, dropped signer, flipped mode, random bytes). Oracle: ValidateBlockConsensus returns nil => the independent reference validator accepts; no panic; GetMemberIdsFromBlockProof never panics and returns exactly the signers of accepted proofs. Non-trivial = parses as a COMMIT certificate for the right instance and height (verdict hinges on signer set / one mutation). Distinct = the whole case. accept rate on reference-valid proofs is reported in classes.",
+    "C02": "cases = (committee 4..10 with weights incl. 0 and > 2^53, block, mode strict/soft, previous proof nil/genuine/wrong, genuine COMMIT certificate whose signer set is cut exactly at Q, Q-1, F+1, F, all or random, then 0..3 mutations: duplicate signer, outsider padding/replacement with valid signatures, header type tag, signature garbage / over the PREPARE-tagged header / other view / other key, instance, height, hash other/empty, seed signature empty/garbage/other height/other seed, wrong previous proof, nil block, byte-level surgery, dropped signer, flipped mode, random bytes). Oracle: ValidateBlockConsensus returns nil => the independent reference validator accepts; no panic; GetMemberIdsFromBlockProof never panics and returns exactly the signers of accepted proofs. Non-trivial = parses as a COMMIT certificate for the right instance and height (verdict hinges on signer set / one mutation). Distinct = the whole case. accept rate on reference-valid proofs is reported in classes. TestC02Seq: 2..3 such proofs validated in sequence on ONE validator instance (fork block under the first proof's signatures, other view, same proof again, in-place corruption), optionally all written into one reused receive buffer; cases in which the consumer's committee service fails must be refused.",
     "C03": SIM_RULE + "Oracle at every correct commit callback: strict ValidateBlockConsensus on another correct node with the committing term's prev block/proof returns nil, the reference validator accepts, the block satisfies the proof's hash. Non-trivial = at commit time the committing node's commit log held a COMMIT from a Byzantine member/outsider or from another view, or the commit is in a view > 0.",
     "C04": SIM_RULE + "Oracle at every correct commit: block height = h, block valid flag set (a block every correct validator rejects is never committed), block satisfies the certified hash, a PREPREPARE for that hash and view signed by the view's leader exists in the history, and some correct member's ValidateBlockProposal approved it or a correct member proposed it. Non-trivial = a consumer-invalid proposal was delivered to a correct node and some correct node committed.",
-    "C10": SIM_RULE + "Oracle over each correct node's send stream joined with its reference-validated inbox: <=1 proposal/PREPARE/COMMIT hash per (h,v), PREPARE only for a delivered proposal of that view's leader and never by the leader, COMMIT only with a prepared certificate or commit quorum for exactly (v,hash), VIEW_CHANGE views strictly increasing, no PREPREPARE/PREPARE below the current view. Non-trivial = two different proposals for one (h,v) were delivered, or a duplicated/replayed delivery, or a commit quorum before being prepared.",
+    "C10": SIM_RULE + "Oracle over each correct node's send stream joined with its reference-validated inbox: <=1 proposal/PREPARE/COMMIT hash per (h,v), PREPARE only for a delivered proposal of that view's leader and never by the leader, COMMIT only with a prepared certificate or commit quorum for exactly (v,hash), VIEW_CHANGE views strictly increasing, no PREPREPARE/PREPARE below the current view. Non-trivial = two different proposals for one (h,v) were delivered, or a duplicated/replayed delivery, or a commit quorum before being prepared. TestC10N: the same send-stream oracle on one real node with valid-then-mutated candidates and the scripted scenarios (early message for an upcoming view, next-height candidates through the cache).",
     "C05": "cases = (config as engine S, adversarial prefix of 0..60 generated steps, per-member remaining timer fraction, 0..3 Byzantine injections placed at generated timer firings of the suffix). Suffix in virtual time: all messages to the deciders D (correct live members at the lowest undecided height, weight >= Q else discarded and counted) are delivered FIFO before the earliest timer (base*2^view, exact integers) fires. Oracle: some member of D commits within |D|*(Vmax-Vmin+2n+4) timer firings, and if the committing view was proposed after the stabilisation point by a member of D, every member of D that stored its proposal commits. Non-trivial = views in D differ at stabilisation, or a member holds a prepared certificate, or a Byzantine injection happened in the suffix. Distinct = the whole case.",
     "C07": "Engine N: one real node in a generated state (committee 4..9, weights, leader order, 0..5 prefix steps: timeouts, valid proposals/NEW_VIEWs, prepares), then 1..3 candidate messages (NEW_VIEW, stand-alone PREPREPARE, VIEW_CHANGE to the node as leader) built VALID by reference builders and given 0..3 mutations from a 43-entry catalogue (header fields, sender, signatures, votes dropped/duplicated/unsigned/re-signed/outsider/other view-height-instance-type, proofs forged/other views/below quorum, embedded proposal fields, other/invalid block). Oracle: any effect (store, send, view move) of a NEW_VIEW implies ref.ValidNewView; PREPARE/adoption in v>0 only via NEW_VIEW; a leader's NEW_VIEW embeds only reference-valid votes of quorum weight. Engine S adds the same oracle as a monitor on every delivery of generated cluster executions. Non-trivial = candidate with exactly one mutation, or an unmutated candidate that was accepted (control). Distinct = the whole case.",
     "C08": "Engine N as C07 with candidates PREPREPARE/PREPARE/COMMIT/VIEW_CHANGE; oracle: any effect (Store* true, send, view move, commit) implies ref.mayInfluence (signature under the claimed sender's key, sender in committee, this instance and height, header tag = envelope, role fits, share valid, not stale, proof valid). Engine S: same oracle on every delivery of generated cluster executions. Non-trivial = exactly one mutation, or accepted control (N); a Byzantine/outsider message was stored (S).",
     "C09": "Engine N: node brought to prepared in generated views then timed out (voter), or fed 1..8 generated VIEW_CHANGE candidates (with genuine proofs of different views, mutated variants: block missing/other, proof dropped/forged/below quorum...) as leader (collector); engine S: every VIEW_CHANGE / NEW_VIEW a correct node emits in generated cluster executions. Oracle: VIEW_CHANGE sent while prepared carries a reference-valid proof of the highest prepared view + matching block; NEW_VIEW embeds exactly the stored votes, each still verifying, proposes the block of the highest-view valid proof, fresh proposal iff no vote carries a proof. Non-trivial = vote sent while prepared, or NEW_VIEW emitted with a proof among its votes (S); exactly one mutation or accepted control (N).",
     "C11": SIM_RULE + "Oracle at every delivery of a message a correct node sent to a correct peer in a matching state (same height and chain; NEW_VIEW: peer view <= v and no proposal stored for v; VIEW_CHANGE: peer leads v and view <= v; PREPARE: peer view <= v; COMMIT: any): the accepting effect happens (adopted+stored+PREPARE / Store* call). Non-trivial = judged delivery in a run where some correct node had stored a Byzantine/outsider message before. Second test (few cases in quick, many in thorough): at emission of every NEW_VIEW / VIEW_CHANGE (and every 6th PREPARE / COMMIT) each correct peer at that height is cloned by replaying its entire input history into a fresh node, the message is delivered to the clone and acceptance is judged there, whether or not the schedule ever delivers it.",
-    "C12": "Layer 1 (engine N, in process): a fresh real node in a generated state receives (a) raw content bytes: random, or a valid serialised message of any of the five kinds with 1..3 byte operations (truncate, bit flip, 32-bit word set to 0/1/2^31/2^32-1.., insert, drop); (b) structurally valid messages with 1..3 field mutations incl. views/heights 2^63, 2^64-1, empty ids/signatures, nil blocks, proofs without preparers, NEW_VIEW without votes. Oracle: neither the main-loop step nor the worker step panics, and afterwards the node commits a scripted valid round and reacts to an election trigger. Layer 2 (engine R): the same kinds of hostile bytes through HandleConsensusMessage of the real two-goroutine runtime, then scripted rounds: no 'recovered panic' in the supervisor log, the follow-up round commits (quiescence-judged). Thorough adds native fuzzing of layer 1. Non-trivial = the input parses as one of the five message kinds or is a structured message with an extreme field. Distinct = the whole case.",
-    "C13": "Engine R: generated op sequences (scripted rounds of the other members, election triggers for the current or stale positions, UpdateState with older/equal/newer heights and bursts, SPI gates hold/ctx on propose/validate/committee/commit, failing commit callbacks, committee lookup failing once) on the real runtime with a 50us (height,view) poller; engine S: generated cluster executions with syncs. Oracle (pure history invariants, true under every interleaving): commit-callback heights strictly increase, new-round heights strictly increase, (h,v) samples never decrease lexicographically, no round <= a committed height, election registrations lexicographically non-decreasing with view 0 first on a new height. Non-trivial = a sync/trigger was issued while an SPI gate was closed, or a commit callback failed (R); a sync happened or >= 2 heights completed (S).",
-    "C14": "Engine R op sequences emphasising UpdateState (older/equal/newer, bursts without yielding, 'settle, stale sync, settle' triples) interleaved with rounds and SPI gates. Oracle: UpdateState returns within its deadline; for every call that returned nil with block height >= the height being decided, the node is above that height at final quiescence; rounds not preceded by the node's own successful commit have canBeFirstLeader=false and no view-0 PREPREPARE above height 1; a stale sync between two settled points changes nothing (sends, callbacks, (h,v)). Non-trivial = a burst, or a sync while a gate was closed.",
-    "C15": "(a) registry laws: all sequences of length 3 (thorough 4) over {For,CancelOlderThan}x{h 0..2}x{v 0,1,2,2^64-1}+Shutdown exhaustively, random sequences up to 60 ops, against a reference model (a context is Done iff a later CancelOlderThan above it or Shutdown; For errs iff shut down or below the watermark; never hands out a cancelled context). (b) engine R: SPI calls (RequestNewBlockProposal, ValidateBlockProposal, RequestOrderedCommittee, commit callback) blocked on their context or held by the harness while triggers (current / stale), syncs (lower/equal/higher) and shutdown are generated. Oracle: a context cancellation has a cause (trigger/sync/shutdown about that or a later position); after a leave-event and quiescence the call is not still blocked; everything is released by shutdown; a block returned under a cancelled context is never broadcast. (c) engine S monitor: SPI entered with a live context. Non-trivial = >= 2 cancels in a registry sequence; a non-pass gate policy was exercised (R).",
+    "C12": "Layer 1 (engine N, in process): a fresh real node in a generated state receives (a) raw content bytes: random, or a valid serialised message of any of the five kinds with 1..3 byte operations (truncate, bit flip, 32-bit word set to 0/1/2^31/2^32-1.., insert, drop); (b) structurally valid messages with 1..3 field mutations incl. views/heights 2^63, 2^64-1, empty ids/signatures, nil blocks, proofs without preparers, NEW_VIEW without votes. Oracle: neither the main-loop step nor the worker step panics, and afterwards the node commits a scripted valid round and reacts to an election trigger. Layer 2 (engine R): the same kinds of hostile bytes through HandleConsensusMessage of the real two-goroutine runtime, then scripted rounds: no 'recovered panic' in the supervisor log, the follow-up round commits (quiescence-judged). Layer 3 (TestC12Proofs): ValidateBlockConsensus / GetMemberIdsFromBlockProof on one instance, sequences of proofs with size words overwritten in place in a reused buffer; only panics are judged there. Thorough adds native fuzzing of layer 1. Non-trivial = the input parses as one of the five message kinds or is a structured message with an extreme field. Distinct = the whole case.",
+    "C13": "Engine R: generated op sequences (scripted rounds of the other members, election triggers for the current or stale positions, UpdateState with older/equal/newer heights and bursts, SPI gates hold/ctx on propose/validate/committee/commit, failing commit callbacks, committee lookup failing once) on the real runtime with a 50us (height,view) poller; engine S: generated cluster executions with syncs. Oracle (pure history invariants, true under every interleaving): commit-callback heights strictly increase, new-round heights strictly increase, (h,v) samples never decrease lexicographically, no round <= a committed height, election registrations lexicographically non-decreasing with view 0 first on a new height. Engine N: valid NEW_VIEWs into views up to 2^64-1, then timeouts. Engine R also: huge-gap syncs (2^31..2^63+2^62 ahead), a consumer whose commit callback returns ctx.Err(), the node sitting out one height. Non-trivial = a sync/trigger was issued while an SPI gate was closed, or a commit callback failed (R); a sync happened or >= 2 heights completed (S); a view >= 2^31 was reached (N).",
+    "C14": "Engine R op sequences emphasising UpdateState (older/equal/newer, bursts without yielding, 'settle, stale sync, settle' triples) interleaved with rounds and SPI gates. Oracle: UpdateState returns within its deadline; for every call that returned nil with block height >= the height being decided, the node is above that height at final quiescence; rounds not preceded by the node's own successful commit have canBeFirstLeader=false and no view-0 PREPREPARE above height 1; a stale sync between two settled points changes nothing (sends, callbacks, (h,v)). the stale-sync triple also compares the election registration and the storage calls (SPI state); UpdateState may get a per-call context that is cancelled right after the call returned. Engine S: after every sync below the node's height nothing has changed (sends, callbacks, (h,v), election registration, storage). Non-trivial = a burst, or a sync while a gate was closed (R); a stale sync happened (S).",
+    "C15": "(a) registry laws: all sequences of length 3 (thorough 4) over {For,CancelOlderThan}x{h 0..2}x{v 0,1,2,2^64-1}+Shutdown exhaustively, random sequences up to 60 ops, against a reference model (a context is Done iff a later CancelOlderThan above it or Shutdown; For errs iff shut down or below the watermark; never hands out a cancelled context). (b) engine R: SPI calls (RequestNewBlockProposal, ValidateBlockProposal, RequestOrderedCommittee, commit callback) blocked on their context or held by the harness while triggers (current / stale), syncs (lower/equal/higher) and shutdown are generated. Oracle: a context cancellation has a cause (trigger/sync/shutdown about that or a later position); after a leave-event and quiescence the call is not still blocked; everything is released by shutdown; a block returned under a cancelled context is never broadcast. (c) engine S monitor: SPI entered with a live context. (c) engine S (TestC15S): cluster executions, half of them with a main-loop event during a consumer call or split events: every consumer call and commit callback gets a live context, a block returned by RequestNewBlockProposal after its context was cancelled is never broadcast. Non-trivial = >= 2 cancels in a registry sequence; a non-pass gate policy was exercised (R); an interrupt or split event happened (S).",
     "C16": "Engine R op sequences with the fake or the real timer-based election trigger (base 2..12 ms), SPI gates, triggers, syncs; cancellation of the run context at a generated op index, then API calls with a cancelled context. Oracle: WaitUntilShutdown returns within 10 s; no commit/new-round callback and no send after it returned during a grace period > 2x the armed timeout; goroutine diff (stacks with a lean-helix-go/govnr frame) empty after settle retries; HandleConsensusMessage/UpdateState/ValidateBlockConsensus with a cancelled context return. Non-trivial = an SPI gate was closed when the context was cancelled.",
-    "C17": "cases = sequences of recv(height cur-2..cur+4, instance mine/other, sender me/other) and advance(1..3) incl. re-entrant advance from inside the handler's k-th delivery (what commit does during a cache drain), on the real RawMessageFilter with a real State: all sequences of length 5 (thorough 6) over a 12-letter alphabet exhaustively + random up to 80 ops. Oracle (reference model): every delivery goes to the handler of its own height, my instance, not my own message; never twice; in receive order per height; current-height messages delivered at once; a cached message of H is delivered at the start of H if no message for a higher height was cached before (unless an earlier-received message of H completed H during the drain). Non-trivial = a sequence with an advance and a future-height receive.",
-    "C19": "(a) formula: bases {1ns,1us,1ms,4s,1h,2^62ns,random<=24h} x views 0..200 dense, powers of two +-1, 2^64-1-k, random: CalcTimeout > 0, = base*2^v exactly when that fits in int64, otherwise >= every lower view's timeout (saturating), non-decreasing. (b) real TimerBasedElectionTrigger (base 2..5 ms, views 0..3): generated Register/Stop/sleep (incl. +-1 ms around the expiry)/reader on-slow-off sequences; history oracle: every trigger read was armed, <= 1 per arming, not before t_before_register + CalcTimeout(v); an armed un-superseded registration delivers within timeout+400ms (a miss counts only three runs in a row). Full node on the real timer left alone: every view lasts >= its timeout (1.5 ms measuring slack), views keep advancing. Non-trivial = base*2^v >= 2^62 (a); a stop/register/sleep placed within 1 ms of an expiry, or a node run (b).",
-    "C20": "cases = messages of all five kinds and block proofs built only through messagesfactory / GenerateLeanHelixBlockProof with the registry key manager: instance/height/view over the 64-bit range (boundary classes), ids / hashes of length 0..256 with arbitrary bytes, 0..20 preparers, 0..20 votes each with optional proof, block present or nil. Oracle: ToConsensusRawMessage -> ToConsensusMessage gives the same type, fields, bytes; nested proofs and votes equal field by field and in number; every signature verifies over the re-read bytes (header Raw(), embedded votes, proof references, proof.BlockRef().Raw()); parsing a copy twice and parsing BuilderFromRaw output give identical accessors. Non-trivial = a variable-length field of length 0 or >= 128, or >= 2 nested votes/preparers, or a 64-bit field >= 2^63.",
-    "C18": "cases = (committee size n in 4..64, view): dense 0..4n, powers of two +-1, neighbourhoods of 2^31, 2^32, 2^63, 2^64-1-k, random 64-bit; oracle VerifLeaderOf(view, committee) == committee[view mod n] in uint64, no panic, and every window of n consecutive views has n distinct leaders. Non-trivial = view >= 2^31 or within n of 0 or a multiple of n. Distinct = (n, view). Behavioural part (engine N, 20-byte member ids sharing their leading bytes): PREPREPARE / NEW_VIEW / PREPARE / VIEW_CHANGE candidates with the sender swapped to another member (re-signed with that member's key) in views reached by timeouts and NEW_VIEWs; any effect of a message whose sender does not have the leader role the reference assigns (view mod n) is a violation.",
-    "C06": "cases = (weight vector, id list A, id list B): exhaustive small vectors x all subset pairs, random vectors n<=16 with weight classes up to 2^64, and boundary-shaped committees [F,W-F],[F+1,W-F-1],[F+1,F+1,W-2F-2],[F,F,W-2F],[F,1,W-F-1] for W around 7..2^64; id lists include duplicates and non-members. Non-trivial = total weight > 2^53 or weight(A) within 1 of f or Q. Distinct = distinct (weights, A, B). Behavioural part (TestC06InUse): one real node, committee 4..9 with weight classes unit / small / with zero-weight members / stake-sized (k*2^58+low bits) / 2^53+k / 1..100, 20-byte ids sharing their leading bytes, 0..2 outsiders; genuinely signed PREPAREs, COMMITs or VIEW_CHANGEs of a generated sender sequence (every member and outsider in a drawn order, with repeats) are delivered one at a time; after each delivery the node has sent COMMIT (prepared) / invoked the commit callback / sent NEW_VIEW (elected) if and only if the distinct committee members counted so far reach Q in big-integer arithmetic. Non-trivial there = some delivery left the counted set one member away from the threshold.",
+    "C17": "cases = sequences of recv(height cur-2..cur+4, instance mine/other, sender me/other) and advance(1..3) incl. re-entrant advance from inside the handler's k-th delivery (what commit does during a cache drain), on the real RawMessageFilter with a real State: all sequences of length 5 (thorough 6) over a 12-letter alphabet exhaustively + random up to 80 ops. Oracle (reference model): every delivery goes to the handler of its own height, my instance, not my own message; never twice; in receive order per height; current-height messages delivered at once; a cached message of H is delivered at the start of H if no message for a higher height was cached before (unless an earlier-received message of H completed H during the drain). handlers may also move the VIEW during a drain (14-letter alphabet). Engine S (TestC17S): cluster executions with membership changes and main-loop events during commits: a node stores / sends for a height only after it reported a round for it and only while it is a member of that height's committee; consumer calls for height H carry the prevBlock the term of H was started from. Non-trivial = a sequence with an advance and a future-height receive; >= 2 heights completed with a membership change or a stored Byzantine message (S).",
+    "C19": "(a) formula: bases {1ns,1us,1ms,4s,1h,2^62ns,random<=24h} x views 0..200 dense, powers of two +-1, 2^64-1-k, random: CalcTimeout > 0, = base*2^v exactly when that fits in int64, otherwise >= every lower view's timeout (saturating), non-decreasing. (b) real TimerBasedElectionTrigger (base 2..5 ms, views 0..3): generated Register/Stop/sleep (incl. +-1 ms around the expiry)/reader on-slow-off sequences; history oracle: every trigger read was armed, <= 1 per arming, not before t_before_register + CalcTimeout(v); an armed un-superseded registration delivers within timeout+400ms (a miss counts only three runs in a row). Full node on the real timer left alone: every view lasts >= its timeout (1.5 ms measuring slack), views keep advancing. a receive attempted after Stop() returned obtains no trigger (three runs in a row). (c) real runtime, harness-played timer (TestC19R): the last trigger of a run, if it named the node's position, has moved the node by final quiescence (templates: two triggers in one worker step; stale sync queued behind a busy worker). (d) real runtime, real timer (TestC19RT): commit callbacks that outlast the timeout; a view left by timeout lasted at least its timeout. Non-trivial = base*2^v >= 2^62 (a); a stop/register/sleep placed within 1 ms of an expiry, or a node run (b); a trigger while a gate was closed (c); a commit happened (d).",
+    "C20": "cases = messages of all five kinds and block proofs built only through messagesfactory / GenerateLeanHelixBlockProof with the registry key manager: instance/height/view over the 64-bit range (boundary classes), ids / hashes of length 0..256 with arbitrary bytes, 0..20 preparers, 0..20 votes each with optional proof, block present or nil. Oracle: ToConsensusRawMessage -> ToConsensusMessage gives the same type, fields, bytes; nested proofs and votes equal field by field and in number; every signature verifies over the re-read bytes (header Raw(), embedded votes, proof references, proof.BlockRef().Raw()); parsing a copy twice and parsing BuilderFromRaw output give identical accessors. Non-trivial = a variable-length field of length 0 or >= 128, or >= 2 nested votes/preparers, or a 64-bit field >= 2^63. Engine S (TestC20S): every message a correct node emits in cluster executions parses back identically, nested votes equal the stored votes they were built from, every nested signature (votes, proof references, block proofs at the commit callback) verifies over the re-read bytes.",
+    "C18": "cases = (committee size n in 4..64, view): dense 0..4n, powers of two +-1, neighbourhoods of 2^31, 2^32, 2^63, 2^64-1-k, random 64-bit; oracle VerifLeaderOf(view, committee) == committee[view mod n] in uint64, no panic, and every window of n consecutive views has n distinct leaders. Non-trivial = view >= 2^31 or within n of 0 or a multiple of n. Distinct = (n, view). Behavioural part (engine N, 20-byte member ids sharing their leading bytes): PREPREPARE / NEW_VIEW / PREPARE / VIEW_CHANGE candidates with the sender swapped to another member (re-signed with that member's key) in views reached by timeouts and NEW_VIEWs; any effect of a message whose sender does not have the leader role the reference assigns (view mod n) is a violation. TestC18Elect: the member at position (view mod n) takes the lead as soon as votes of quorum weight for that view have arrived, also when the view is 1..7 rotations ahead of its own.",
+    "C06": "cases = (weight vector, id list A, id list B): exhaustive small vectors x all subset pairs, random vectors n<=16 with weight classes up to 2^64, and boundary-shaped committees [F,W-F],[F+1,W-F-1],[F+1,F+1,W-2F-2],[F,F,W-2F],[F,1,W-F-1] for W around 7..2^64; id lists include duplicates and non-members. Non-trivial = total weight > 2^53 or weight(A) within 1 of f or Q. Distinct = distinct (weights, A, B). Behavioural part (TestC06InUse): one real node, committee 4..9 with weight classes unit / small / with zero-weight members / stake-sized (k*2^58+low bits) / 2^53+k / 1..100, 20-byte ids sharing their leading bytes, 0..2 outsiders; genuinely signed PREPAREs, COMMITs or VIEW_CHANGEs of a generated sender sequence (every member and outsider in a drawn order, with repeats) are delivered one at a time; after each delivery the node has sent COMMIT (prepared) / invoked the commit callback / sent NEW_VIEW (elected) if and only if the distinct committee members counted so far reach Q in big-integer arithmetic. Non-trivial there = some delivery left the counted set one member away from the threshold. TestC06Stateful: one committee slice object whose weights are rewritten in place between calls, interleaved with other committees; every call compared with the reference on the current values.",
 }
 
 ASSUMPTIONS = {
